@@ -210,6 +210,22 @@ func init() {
 		},
 		Undecided: []string{"resume offset reported by HandleUploadFile equals the size of the partial file (not yet under contract)", "content equality upload = later download is the composition with C08"},
 	}
+	plans["C08"] = &Plan{
+		Items: append([]Item{
+			{Plugin: "streams", Func: "hotline.DownloadHandler", Kinds: siteKinds, Depth: 2, Env: []string{"hotline.NewFileWrapper"}},
+			{Plugin: "sites", Func: "hotline.(*fileWrapper).flattenedFileObject", Kinds: []string{"site"}},
+			{Plugin: "handler-contract", Func: "mobius.HandleDownloadFile", Kinds: []string{"site"}},
+		}, fnItems(nil, "hotline.(*flattenedFileObject).TransferSize", "hotline.(*flattenedFileObject).Read", "hotline.(*FlatFileInformationFork).Read",
+			"hotline.(*FlatFileInformationFork).DataSize", "hotline.(*FlatFileInformationFork).ReadNameSize")...),
+		Decided: []string{
+			"DownloadHandler, as a sequence of stream operations: the header is written first and only when no preview option is set; the data fork source stands at exactly the resume offset when its copy starts and at its end when the copy is over; the resource fork header follows only when not resuming; the resource fork is copied last from its start; on success the number of write operations is exactly header? + data + rsrc-header? + rsrc; the handler fails only if an environment operation failed or the offset lies beyond the file",
+			"flattenedFileObject: the data size field is (size on disk - resume offset) mod 2^32 in both Stat branches; TransferSize(k) = data + resource + header length - k (mod 2^32), computed on a copy (the header cursor is not consumed)",
+			"header self-consistency: the info fork size and name length fields of the header are computed from the info fork that follows (cursor contract of flattenedFileObject.Read / FlatFileInformationFork.Read)",
+			"HandleDownloadFile: the only error reply is the privilege denial; field 108 is TransferSize(0) of the wrapper (bare data size for a preview), field 207 the wrapper's data size",
+		},
+		Undecided: []string{"content of the data fork stream = bytes on disk (os.File semantics, assumed)", "resume offset taken from the wire form of the resume data (FileResumeData.UnmarshalBinary not under contract)", "files of 4 GiB and more (32-bit size fields wrap)"},
+		Assumptions: []string{"a stored .info_<name> file is a well-formed info fork (NewFileWrapper's contract on the header invariant is assumed, its body reads the file)"},
+	}
 	plans["C14"] = &Plan{
 		Items: append([]Item{
 			{Plugin: "sites", Func: "hotline.(*Server).sendTransaction", Kinds: siteKinds},
